@@ -247,8 +247,73 @@ def _cond_translate_message(repo: Repo) -> str | None:
     return None
 
 
+def _first_is_str(repo: Repo, f, pathv: str, cs, depth: int = 0) -> str | None:
+    """None when, at a statement of ``f`` reached under the conditions ``cs``, the first element of
+    the list named ``pathv`` is known to be a str: ``f`` itself bound ``root = next(iter(pathv))``
+    and ``isinstance(root, str)`` holds on the way, or ``pathv`` is a parameter of a private helper
+    and the same is true at every call site of the helper for the argument bound to it."""
+    from ..astutil import bind_args
+    from ..guards import canon, conditions
+
+    its = {s2.targets[0].id for s2 in ast.walk(f.node) if isinstance(s2, ast.Assign) and len(s2.targets) == 1 and isinstance(s2.targets[0], ast.Name) and isinstance(s2.value, ast.Call) and is_name(s2.value.func, "iter") and s2.value.args and is_name(s2.value.args[0], pathv)}
+    roots = [s2.targets[0].id for s2 in ast.walk(f.node) if isinstance(s2, ast.Assign) and len(s2.targets) == 1 and isinstance(s2.targets[0], ast.Name) and isinstance(s2.value, ast.Call) and is_name(s2.value.func, "next") and s2.value.args and isinstance(s2.value.args[0], ast.Name) and s2.value.args[0].id in its]
+    if roots:
+        want = {canon(ast.parse(f"isinstance({r}, str)", mode="eval").body) for r in roots}
+        if {canon(k) for k in cs} & want:
+            return None
+        return f"{f.qual}: _segments_str is reachable without `isinstance(root, str)` having held"
+    if pathv in f.params() and depth < 3 and f.name.startswith("_"):
+        callers = 0
+        for g in repo.all_functions():
+            if g.module.name != f.module.name:
+                continue
+            for st, cs2 in conditions(g.node):
+                if isinstance(st, (ast.If, ast.For, ast.AsyncFor, ast.While, ast.With, ast.AsyncWith, ast.Try)):
+                    continue
+                for c in ast.walk(st):
+                    if isinstance(c, ast.Call) and callee_name(c) == f.name and (is_name(c.func, f.name) or (isinstance(c.func, ast.Attribute) and is_name(c.func.value, "self"))):
+                        callers += 1
+                        bound = bind_args(c, f.node, skip_self=isinstance(c.func, ast.Attribute)) or {}
+                        a = bound.get(pathv)
+                        if not isinstance(a, ast.Name):
+                            return f"{g.qual}: `{text(c)[:60]}` does not hand a named path to {f.name}"
+                        why = _first_is_str(repo, g, a.id, cs2, depth + 1)
+                        if why:
+                            return why
+        if callers:
+            return None
+    return f"{f.qual}: `root = next(iter({pathv}))` not found"
+
+
+def _cond_segments_root_is_str(repo: Repo) -> str | None:
+    """``_segments_str`` is only called (within liquid.context) with a slice that starts at the
+    first element of a path whose first element (``root``) has passed the ``isinstance(root, str)``
+    test — directly in ``RenderContext.get`` / ``get_async`` or in a private helper they call with
+    that path — so the first thing it stringifies is a string."""
+    from ..guards import conditions
+
+    sites = 0
+    for f in repo.all_functions():
+        if f.module.name != "liquid.context":
+            continue
+        for st, cs in conditions(f.node):
+            if isinstance(st, (ast.If, ast.For, ast.AsyncFor, ast.While, ast.With, ast.AsyncWith, ast.Try)):
+                continue
+            for c in ast.walk(st):
+                if isinstance(c, ast.Call) and isinstance(c.func, ast.Name) and c.func.id == "_segments_str":
+                    sites += 1
+                    a = c.args[0] if c.args else None
+                    if not (isinstance(a, ast.Subscript) and isinstance(a.slice, ast.Slice) and a.slice.lower is None and isinstance(a.value, ast.Name)):
+                        return f"{f.qual}: _segments_str({text(a) if a is not None else ''}) is not a slice of the path from its first element"
+                    why = _first_is_str(repo, f, a.value.id, cs)
+                    if why:
+                        return why
+    return None if sites else "_segments_str is no longer called"
+
+
 # site key (function|primitive:argument|exception) -> (reason, side condition or None)
 REVIEWED = {
+    "liquid.context._segments_str|str(int):next(it)|ValueError": ("the first segment handed to _segments_str is the path's root after it passed isinstance(root, str): str() of a str", _cond_segments_root_is_str),
     "liquid.extra.tags.translate_tag.TranslateNode._format_message|str % x:message_text|ValueError": ("the message id is built by the tag itself: literal % doubled, only %(name)s placeholders; (catalogue translations are trusted to keep them)", _cond_translate_message),
     "liquid.extra.tags.translate_tag.TranslateNode._format_message|str % x:message_text|TypeError": ("as above; the right operand is a dict and every placeholder is named", _cond_translate_message),
     "liquid.extra.tags.translate_tag.TranslateNode._format_message|str % x:message_text|KeyError": ("_vars has a key for every placeholder re_vars finds, and re_vars finds every placeholder the tag can emit (also after escaped percent signs)", _cond_translate_message),
@@ -527,5 +592,7 @@ def selftest(repo: Repo):
         v("liquid-filter-no-conversion", FL, "    def wrapper(val: object, *args: Any, **kwargs: Any) -> Any:\n        try:\n            return _filter(val, *args, **kwargs)\n        except TypeError as err:\n            raise FilterArgumentError(err, token=None) from err\n\n    return wrapper\n\n\ndef int_arg", "    def wrapper(val: object, *args: Any, **kwargs: Any) -> Any:\n        return _filter(val, *args, **kwargs)\n\n    return wrapper\n\n\ndef int_arg", "C02-FUNNEL"),
         v("from-string-narrow-catch", "liquid/environment.py", "        except Exception as err:  # noqa: BLE001\n            raise LiquidError(\"unexpected liquid parsing error\", token=None) from err", "        except ValueError as err:\n            raise LiquidError(\"unexpected liquid parsing error\", token=None) from err", "C02-PARSE"),
         v("translate-vars-regex-lookbehind", "liquid/extra/tags/translate_tag.py", 're_vars = re.compile(r"(?<!%)(?:%%)*%\\((\\w+)\\)s")', 're_vars = re.compile(r"(?<!%)%\\((\\w+)\\)s")', "C02-ESCAPE"),
+        v("root-name-bare-str", "liquid/context.py", "                name = to_str(root)\n", "                name = str(root)\n", "C02-ESCAPE", count=2),
+        v("segments-str-before-root-check", "liquid/context.py", "                name = to_str(root)\n                hint = f\"{name} is undefined\"\n", "                name = to_str(root)\n                hint = f\"{_segments_str(path[:1])} is undefined\"\n", "C02-ESCAPE", count=2),
         v("babel-format-unguarded", "liquid/extra/filters/babel.py", "        except (ArithmeticError, ValueError, OSError) as err:\n            # Timestamps out of range for the platform, NaN.\n", "        except KeyError as err:\n            # Timestamps out of range for the platform, NaN.\n", "C02-ESCAPE"),
     ]
